@@ -910,3 +910,49 @@ def check_consequence_ma(seed: int, spaces_kind: str = "vector") -> Tuple[List[d
         except Exception as ex:
             fail(algo, "raises", f"{type(ex).__name__}: {str(ex)[:200]}")
     return fails, n
+
+
+def check_consequence_big_group(seed: int, n_agents: int = 12) -> Tuple[List[dict], int]:
+    """IPPO with a large homogeneous group (agent ids a_0 .. a_11, whose lexicographic order differs from their
+    numeric order): the value estimate reported for agent a must be the one of a's own observation, i.e. equal
+    to what the same call reports when every agent carries a's observation."""
+    from gymnasium import spaces
+
+    fails, n = [], 0
+    rng = np.random.RandomState(seed + 77)
+    ids = [f"a_{k}" for k in range(n_agents)]
+    sp = spaces.Box(0, 4, (3,))
+    E = 2
+    obs = {a: rng.randint(0, 5, size=(E, 3)).astype(np.float32) for a in ids}
+    try:
+        agent = ma_agent("ippo", ids, [sp] * n_agents, None)
+    except Exception as ex:
+        raise RuntimeError(f"harness: cannot build ippo with {n_agents} agents: {ex}") from ex
+
+    def report(o):
+        with warnings.catch_warnings():
+            warnings.simplefilter("ignore")
+            torch.manual_seed(0)
+            r = agent.get_action(o)
+            return {a: np.asarray(r[3][a], dtype=np.float64).reshape(-1) for a in ids}
+    try:
+        full = report(obs)
+        n += 1
+        allv = np.concatenate([full[a] for a in ids])
+        if np.ptp(allv) <= 100 * TOL:
+            INSENSITIVE.append("ippo:big-group")
+            return fails, n
+        bad = []
+        for a in ids:
+            ref = report({b: obs[a] for b in ids})
+            n += 1
+            if np.max(np.abs(full[a] - ref[a])) > TOL:
+                bad.append(a)
+        if bad:
+            fails.append({"sig": "consequence:ippo:vector:big-group:depends-on-other-agents",
+                          "what": f"IPPO with {n_agents} homogeneous agents: value estimates of {bad[:4]}... are not those of their own observations",
+                          "replay": {"check": "consequence_big_group", "seed": seed, "n_agents": n_agents}})
+    except Exception as ex:
+        fails.append({"sig": "consequence:ippo:vector:big-group:raises", "what": f"{type(ex).__name__}: {str(ex)[:200]}",
+                      "replay": {"check": "consequence_big_group", "seed": seed, "n_agents": n_agents}})
+    return fails, n
